@@ -418,6 +418,14 @@ func (x *Exec) traceCall(cfg *Config, tg target, args []Val) {
 		return
 	}
 	name := callsArrName(tg.sig)
+	if x.c != nil && ghostExplicit(x.c) && x.frameReady && len(cfg.loops) > 0 && !x.frameWhole[name] {
+		// inside a loop the havoc at the loop head trusts the ghost frame
+		var in []Term
+		for _, l := range x.frameLocs[name] {
+			in = append(in, Eq(*tg.unknown, l))
+		}
+		x.oblige(cfg, "call-in-frame", "call of "+tg.name+" is listed in the modifies clause (calls(...))", Or(in...), nil, token.NoPos)
+	}
 	arr := x.heapGet(cfg.st, name, SArr(SInt, x.idxSort()))
 	cfg.st.heap[name] = Store(arr, *tg.unknown, Add(Select(arr, *tg.unknown), x.intLit(1, x.idxSort())))
 }
@@ -629,6 +637,9 @@ func (x *Exec) applyCallback(cfg *Config, f *Frame, cb *CallbackDecl, args []Val
 	oldSt := cfg.st.clone()
 	env.old = oldSt
 	x.havocModifies(cfg, env, ic)
+	if contractTouchesGhostState(ic) {
+		x.havocGhostState(cfg.st)
+	}
 	var res Val = TupV{}
 	if dest != nil {
 		t := dest.Type()
